@@ -1,3 +1,4 @@
+#![allow(unused_imports, dead_code)]
 //! fn mode: direct calls of exported functions and operators of the crates under /repo.
 //! Operands cross the boundary as raw limbs (U256 = [l0,l1,l2,l3], little endian)
 //! or decimal strings (u128), so that the text conversions under test are not
@@ -15,6 +16,10 @@ use haloswap::asset::{Asset, AssetInfo, AssetInfoRaw, CreatePairRequirements, Pa
 use serde_json::{json, Value};
 
 use crate::Out;
+
+// Direct calls of exported helper functions are grouped behind cargo features (all on by default). If a change in
+// /repo alters the signature of one of these helpers the adapter would stop compiling; the build then falls back to
+// dropping the affected group (mon/core.py: build_harness), so that the system-level legs still run.
 
 fn limbs(v: &Value) -> U256 {
     let a = v.as_array().expect("limbs");
@@ -76,6 +81,7 @@ fn ord(o: std::cmp::Ordering) -> i64 {
 pub fn call(f: &str, a: &Value) -> Out {
     match f {
         // ---- formulas -------------------------------------------------------
+        #[cfg(feature = "fn_formulas")]
         "compute_swap" => {
             let (r, s, c) = haloswap::formulas::compute_swap(
                 Uint128::new(u128_of(&a[0])),
@@ -85,6 +91,7 @@ pub fn call(f: &str, a: &Value) -> Out {
             );
             Out::Ok(json!([r.to_string(), s.to_string(), c.to_string()]))
         }
+        #[cfg(feature = "fn_formulas")]
         "compute_offer_amount" => {
             let (r, s, c) = haloswap::formulas::compute_offer_amount(
                 Uint128::new(u128_of(&a[0])),
@@ -94,6 +101,7 @@ pub fn call(f: &str, a: &Value) -> Out {
             );
             Out::Ok(json!([r.to_string(), s.to_string(), c.to_string()]))
         }
+        #[cfg(feature = "fn_formulas")]
         "lp_share" => {
             // [total, d0, d1, p0, p1, sender, [whitelist], min0, min1]
             let info = MessageInfo {
@@ -152,6 +160,7 @@ pub fn call(f: &str, a: &Value) -> Out {
                 Err(e) => Out::Err(e.to_string()),
             }
         }
+        #[cfg(feature = "fn_guards")]
         "assert_max_spread" => {
             // [belief|null, max_spread|null, offer, ret, spread, od, rd]
             let offer = Asset {
@@ -179,6 +188,7 @@ pub fn call(f: &str, a: &Value) -> Out {
                 Err(e) => Out::Err(e.to_string()),
             }
         }
+        #[cfg(feature = "fn_guards")]
         "assert_slippage_tolerance" => {
             // [tol|null, d0, d1, p0, p1]
             let pools = [
@@ -204,6 +214,7 @@ pub fn call(f: &str, a: &Value) -> Out {
                 Err(e) => Out::Err(e.to_string()),
             }
         }
+        #[cfg(feature = "fn_asset")]
         "assert_sent_native" => {
             // [asset_info, amount, [[denom, amt], ...]]
             let asset = Asset {
@@ -230,10 +241,12 @@ pub fn call(f: &str, a: &Value) -> Out {
                 Err(e) => Out::Err(e.to_string()),
             }
         }
+        #[cfg(feature = "fn_factory")]
         "pair_key" => {
             let k = halo_factory::state::pair_key(&[asset_info_raw(&a[0]), asset_info_raw(&a[1])]);
             Out::Ok(json!(crate::hex(&k)))
         }
+        #[cfg(feature = "fn_router")]
         "assert_operations" => {
             // [[offer_info, ask_info], ...]
             let ops: Vec<haloswap::router::SwapOperation> = a
